@@ -118,7 +118,7 @@ func monitor(c *vf.Ctx) {
 		for _, w := range leaked {
 			names = append(names, fmt.Sprintf("%s(order %d, kind %s)", w.name, w.order, w.kind))
 		}
-		msg := fmt.Sprintf("free-running: every goroutine of the process is parked; ShutdownAndWait is parked in stopWorkers/WaitGroup.Wait for ever because it waits for accepted worker(s) %v whose context was never cancelled (accepted after stopWorkers copied the worker list)", names)
+		msg := fmt.Sprintf("free-running: every goroutine of the process is parked; ShutdownAndWait is parked in stopWorkers/WaitGroup.Wait for ever because it waits for accepted worker(s) %v whose context was never cancelled", names)
 		it.deadlock.CompareAndSwap(nil, &msg)
 		for _, w := range leaked {
 			w.release()
@@ -474,7 +474,11 @@ func runStress(c *vf.Ctx, batch, from, iters int, race bool, repeat int) {
 		// repeat > 1 (replay only): the plan of an iteration is fixed by its seed, the
 		// schedule is not; re-run the same plan until the schedule reproduces the finding
 		for r := 0; r < repeat; r++ {
-			stressOne(c, s, batch, i, race)
+			if i%3 == 2 {
+				reregOne(c, s, batch, i, race) // worker exit vs. re-registration of its name
+			} else {
+				stressOne(c, s, batch, i, race)
+			}
 			if r > 0 && c.Get("stress_window_hits") > 0 {
 				break
 			}
